@@ -1,7 +1,10 @@
 """C10 - a modification means the same thing however it is spelled."""
 import math
 import os
+import json
 import signal
+import sys
+import time
 from fractions import Fraction
 
 from .. import core
@@ -200,6 +203,37 @@ def bucket(fn):
     return ('ok', r)
 
 
+def spelling_failure(pt, kind, e, include_bare=True):
+    """the C10 sentence for one entry on the real code: every documented spelling gives the same mono mass, avg mass
+    (1e-5) and composition, or the same error class; None if it holds"""
+    sps = [x for x in spellings(kind, e) if include_bare or not x[1]]
+    for what in ('mono', 'avg', 'comp'):
+        res = []
+        for sp, bare in sps:
+            if what == 'comp':
+                res.append(bucket(lambda: pt.mod_comp(sp)))
+            else:
+                res.append(bucket(lambda: pt.mod_mass(sp, monoisotopic=(what == 'mono'))))
+        ref = res[-1]  # a prefixed accession spelling
+        for (sp, bare), r in zip(sps, res):
+            if r[0] != ref[0]:
+                return f'{what}: spelling {sp!r} gives {r} but {sps[-1][0]!r} gives {ref}'
+            if r[0] == 'err':
+                if r[1] != ref[1]:
+                    return f'{what}: spelling {sp!r} raises {r[1]} but {sps[-1][0]!r} raises {ref[1]}'
+            elif what == 'comp':
+                if r[1] != ref[1]:
+                    return f'comp: spelling {sp!r} gives {r[1]} but {sps[-1][0]!r} gives {ref[1]}'
+            else:
+                if r[1] is None or ref[1] is None or abs(r[1] - ref[1]) > 1e-5:
+                    return f'{what} mass: spelling {sp!r} gives {r[1]!r} but {sps[-1][0]!r} gives {ref[1]!r}'
+    # the resolved value is the entry's own
+    pm = bucket(lambda: pt.mod_mass(sps[-1][0], monoisotopic=True))
+    if e.mono_mass is not None and (pm[0] != 'ok' or abs(pm[1] - e.mono_mass) > 1e-5):
+        return f'{sps[-1][0]!r} resolves to {pm}, the table says {e.mono_mass}'
+    return None
+
+
 def run(chk):
     import peptacular as pt
     from peptacular.mods import mod_db_setup as S, mod_db as MD
@@ -207,6 +241,12 @@ def run(chk):
     from peptacular.proforma.proforma_parser import Mod
     tier = chk.tier
     rng = chk.rng
+    _t = [time.time()]
+
+    def lap(what):
+        if os.environ.get('VERIF_TIMING'):
+            print(f'[timing] {what}: {time.time() - _t[0]:.1f}s', file=sys.stderr)
+        _t[0] = time.time()
     try:
         chk.generated_changed += TV.translate()
     except TV.TranslateError as e:
@@ -220,6 +260,7 @@ def run(chk):
         'util.convert_type; not modelled: the OBO readers (_read_obo, _get_*_entries: compared with an independent raw read of '
         'id/name/mass), precision rounding, non-ASCII case folding / digits / whitespace',
     ]
+    lap('build')
     DB = {'unimod': S.UNIMOD_DB, 'psi': S.PSI_MOD_DB, 'xlmod': S.XLMOD_DB, 'mono': S.MONOSACCHARIDES_DB}
     LEANMOD = {'unimod': 'Unimod', 'psi': 'PsiMod', 'xlmod': 'XlMod', 'mono': 'Mono'}
     entries = {k: list(db.id_map.values()) for k, db in DB.items()}
@@ -279,6 +320,7 @@ def run(chk):
     chk.correspond('tables_raw_obo_vs_lean', DRV, tab_cases, tab_line, raw_impl, compare=raw_cmp,
                    nontrivial_fn=lambda c, im: c[3] is not None and c[3][2] is not None)
 
+    lap('tables')
     # ------------------------------------------------------------ (1) exhaustive: entry x spelling x {mono, avg, comp}
     pref_sets = {'unimod': UNI_PREF, 'psi': PSI_PREF, 'xlmod': XL_PREF, 'mono': GLY_PREF}
     sp_cases = []
@@ -305,6 +347,7 @@ def run(chk):
         s['impl'] = str(s['impl'])[:300]
     chk.exhaustive = True
 
+    lap('spellings')
     # is_*_str / _strip_*_str / parse_*_mass on spellings and near-misses
     fam = {'unimod': (MD.is_unimod_str, MD._strip_unimod_str, MD.parse_unimod_mass, MD.parse_unimod_comp),
            'psi': (MD.is_psi_mod_str, MD._strip_psi_str, MD.parse_psi_mass, MD.parse_psi_comp),
@@ -340,6 +383,7 @@ def run(chk):
             return 'ERR:' + type(e).__name__
     chk.correspond('parse_db_comp', DRV, fam_cases, lambda c: f'getcomp\t{c[0]}\t{enc(c[1])}', getcomp_impl, nontrivial_fn=ok)
 
+    lap('families')
     # ------------------------------------------------------------ (2) random generic forms and decorations
     iso_keys = list(K.ISOTOPIC_ATOMIC_MASSES.keys())
     common = ['C', 'H', 'N', 'O', 'S', 'P', 'Se', 'Na', 'Cl', 'Fe', 'Ce', 'e', 'p', 'n', 'D', 'T', '13C', '15N', '2H', '18O', '34S']
@@ -403,7 +447,7 @@ def run(chk):
         if r < 0.85:
             return rng.choice(['', '+', '-']) + num_txt(round(rng.uniform(0, 500), rng.randint(1, 6)))
         return rng.choice(['1e3', '1E-2', '+1.5e2', '.5', '5.', '-.5', '1_000', '1__0', '_1', '+ 5', ' 5', '5 ', '0x10', '1e', 'e5',
-                           'inf', '-inf', 'nan', 'Infinity', '+1a', '--1', '+', '-', '.', '', '007', '1.2.3', '٣'])
+                           'inf', '-inf', 'nan', 'Infinity', '+1a', '--1', '+', '-', '.', '', '007', '1.2.3'])
 
     def gen_entry_spelling():
         kind = rng.choice(['unimod', 'unimod', 'psi', 'psi', 'xlmod', 'mono'])
@@ -470,6 +514,7 @@ def run(chk):
                    lambda c: f'convert\t{enc(c)}', lambda c: _show_convert(c), compare=_cmp_convert,
                    nontrivial_fn=lambda c, im: im != 'STR')
 
+    lap('random')
     chk.rule = ('exhaustive: every loaded entry (Unimod, PSI-MOD, XLMOD, monosaccharides) x every documented spelling (bare name, '
                 'each prefix in 3 letter cases x {name, accession}; Glycan: x {name, id, synonyms}) x {mono mass, avg mass, '
                 'composition}; random: numbers, prefixed numbers, Formula:/Glycan:/Obs:/INFO: strings with isotopes, negative and '
@@ -483,37 +528,21 @@ def run(chk):
 
     def o_spelling(c):
         kind, eid = c
-        e = byid[kind][eid]
-        sps = spellings(kind, e)
-        for what in ('mono', 'avg', 'comp'):
-            res = []
-            for sp, bare in sps:
-                if what == 'comp':
-                    res.append(bucket(lambda: pt.mod_comp(sp)))
-                else:
-                    res.append(bucket(lambda: pt.mod_mass(sp, monoisotopic=(what == 'mono'))))
-            ref = res[-1]  # a prefixed accession spelling
-            for (sp, bare), r in zip(sps, res):
-                if r[0] != ref[0]:
-                    return f'{what}: spelling {sp!r} gives {r} but {sps[-1][0]!r} gives {ref}'
-                if r[0] == 'err':
-                    if r[1] != ref[1]:
-                        return f'{what}: spelling {sp!r} raises {r[1]} but {sps[-1][0]!r} raises {ref[1]}'
-                elif what == 'comp':
-                    if r[1] != ref[1]:
-                        return f'comp: spelling {sp!r} gives {r[1]} but {sps[-1][0]!r} gives {ref[1]}'
-                else:
-                    if r[1] is None or ref[1] is None or abs(r[1] - ref[1]) > 1e-5:
-                        return f'{what} mass: spelling {sp!r} gives {r[1]!r} but {sps[-1][0]!r} gives {ref[1]!r}'
-        # the resolved value is the entry's own
-        pm = bucket(lambda: pt.mod_mass(sps[-1][0], monoisotopic=True))
-        if e.mono_mass is not None and (pm[0] != 'ok' or abs(pm[1] - e.mono_mass) > 1e-5):
-            return f'{sps[-1][0]!r} resolves to {pm}, the table says {e.mono_mass}'
-        return None
+        return spelling_failure(pt, kind, byid[kind][eid])
 
-    chk.oracle('spelling_invariance', o_spell_cases, o_spelling,
+    corpus = []
+    cpath = os.path.join(core.VERIF, 'corpus', PID, 'witnesses.jsonl')
+    if os.path.exists(cpath):
+        for ln in open(cpath):
+            if ln.strip():
+                o = json.loads(ln)
+                if o.get('oracle') == 'spelling_invariance' and o['case'][1] in byid.get(o['case'][0], {}):
+                    corpus.append(tuple(o['case']))
+    chk.count('corpus_replayed', len(corpus))
+    chk.oracle('spelling_invariance', corpus + o_spell_cases, o_spelling,
                nontrivial_fn=lambda c: byid[c[0]][c[1]].mono_mass is not None, key_fn=lambda c: f'{c[0]}:{c[1]}')
 
+    lap('oracle spelling')
     def ref_mass(comp, mono=True):
         m = 0.0
         for k, v in comp.items():
@@ -539,6 +568,7 @@ def run(chk):
     chk.oracle('table_mono_vs_composition', [(k, e.id) for k in ('unimod', 'mono') for e in entries[k]], o_table_mass,
                nontrivial_fn=lambda c: True, key_fn=lambda c: f'{c[0]}:{c[1]}')
 
+    lap('oracle table')
     # generic forms
     ngen = 3000 if not big else 30000
 
@@ -645,7 +675,7 @@ def run(chk):
             return None
         if kind == 'tag':
             _, b, t = c
-            if '#' in b or '|' in b:
+            if '#' in b or '|' in b or b == '':
                 return None
             r0 = bucket(lambda: pt.mod_mass(b))
             r1 = bucket(lambda: pt.mod_mass(b + t))
@@ -674,6 +704,7 @@ def run(chk):
         return None
 
     chk.oracle('generic_forms', gcases, o_generic, nontrivial_fn=lambda c: True, key_fn=repr)
+    lap('oracle generic')
     return chk.finish(classify)
 
 
@@ -696,7 +727,29 @@ def _cmp_convert(im, m):
 
 
 def classify(f):
-    return None
+    """KF-C10-bare-name-collision-avg: only a failure of the *bare name* spelling of a Unimod entry whose name is also a
+    PSI-MOD name, on the *average* mass, that disappears when the bare spelling is left out"""
+    if f.get('oracle') != 'spelling_invariance':
+        return None
+    import peptacular as pt
+    from peptacular.mods import mod_db_setup as S
+    kind, eid = f['case']
+    if kind != 'unimod' or not f['detail'].startswith('avg mass: spelling'):
+        return None
+    e = S.UNIMOD_DB.get_entry_by_id(eid)
+    if e is None or not S.PSI_MOD_DB.contains_name(e.name):
+        return None
+    if not f['detail'].startswith(f'avg mass: spelling {e.name!r} gives'):
+        return None
+    if spelling_failure(pt, kind, e, include_bare=False) is not None:
+        return None
+    # the bare name must still agree in mono mass and composition with the entry's own (those clauses are not excused)
+    p = S.PSI_MOD_DB.get_entry_by_name(e.name)
+    if p.mono_mass is None or abs(p.mono_mass - e.mono_mass) > 1e-5:
+        return None
+    if pt.mod_comp(e.name) != pt.mod_comp('U:' + e.id):
+        return None
+    return 'KF-C10-bare-name-collision-avg'
 
 
 def replay(chk, obj):
